@@ -1,7 +1,7 @@
 \* the code as it is (size := length of the received bytes), canonical origins only
 SPECIFICATION Spec
 CONSTANTS
-  Kinds = {"tx", "block", "header", "stateroot", "extensible", "consensus", "notaryreq", "aer", "nef", "manifest", "contract", "mptnode", "rule", "item"}
+  Kinds = {"tx", "block", "header", "stateroot", "extensible", "consensus", "notaryreq", "aer", "nef", "manifest", "contract", "mptnode", "rule", "signer", "item"}
   K = 3
   Dev = {}
   Quirks = {"SizeOfReceived"}
